@@ -2955,6 +2955,22 @@ impl Exec {
                     None => "none".into(),
                 })
             }
+            "raw.getmut" => {
+                let k: u64 = toks[1].parse().unwrap();
+                let v: u64 = toks[2].parse().unwrap();
+                // the old value is dropped, a new one takes its place: live count unchanged
+                catch_unwind(AssertUnwindSafe(|| {
+                    self.raw_d.get_mut(hk(k), |p| p.0 == k).map(|e| {
+                        let old = e.1.v;
+                        e.1 = Dv::new(v, &live);
+                        old
+                    })
+                }))
+                .map(|x| match x {
+                    Some(v) => format!("some {}", v),
+                    None => "none".into(),
+                })
+            }
             "raw.find" => {
                 let k: u64 = toks[1].parse().unwrap();
                 catch_unwind(AssertUnwindSafe(|| self.raw_d.find(hk(k), |p| p.0 == k))).map(|x| match x {
@@ -3040,6 +3056,34 @@ impl Exec {
                     self.nontrivial.insert(fnv1a(&format!("rget {} {:?} {} {}", k, x.is_some(), self.raw_kind, self.raw_shadow.len())));
                     if x != self.raw_shadow.get(&k).copied() {
                         self.fail(&["C19"], format!("get({}) = {:?}, a map says {:?}", k, x, self.raw_shadow.get(&k)));
+                    }
+                    match x {
+                        Some(v) => format!("some {}", v),
+                        None => "none".into(),
+                    }
+                })
+            }
+            "raw.getmut" => {
+                let k: u64 = toks[1].parse().unwrap();
+                let v: u64 = toks[2].parse().unwrap();
+                let r = catch_unwind(AssertUnwindSafe(|| {
+                    self.raw.get_mut(hk(k), |p| p.0 == k).map(|e| {
+                        let old = e.1;
+                        e.1 = v;
+                        old
+                    })
+                }));
+                r.map(|x| {
+                    self.nontrivial.insert(fnv1a(&format!("rgm {} {:?} {} {}", k, x.is_some(), self.raw_kind, self.raw_shadow.len())));
+                    let want = self.raw_shadow.get(&k).copied();
+                    if x != want {
+                        self.fail(&["C19"], format!("get_mut({}) = {:?}, a map says {:?}", k, x, want));
+                    }
+                    if want.is_some() {
+                        self.raw_shadow.insert(k, v);
+                    }
+                    if self.raw.get(hk(k), |p| p.0 == k).map(|p| p.1) != self.raw_shadow.get(&k).copied() {
+                        self.fail(&["C19"], format!("after writing {} through get_mut({}) the table holds {:?}", v, k, self.raw.get(hk(k), |p| p.0 == k).map(|p| p.1)));
                     }
                     match x {
                         Some(v) => format!("some {}", v),
@@ -3318,7 +3362,7 @@ impl Exec {
                 }
                 self.nontrivial.insert(raw as u64);
                 format!(
-                    "raw={} index={} const={} input={} var={} neg={} varv={} inputv={} not={} disp={}",
+                    "raw={} index={} const={} input={} var={} neg={} varv={} inputv={} not={} disp={} rnot={} dbg={:?}",
                     s.raw(),
                     s.index(),
                     s.is_const() as u8,
@@ -3328,8 +3372,18 @@ impl Exec {
                     if s.is_var() { s.var().to_string() } else { "-".into() },
                     if s.is_input() { s.input().to_string() } else { "-".into() },
                     (!s).raw(),
+                    s,
+                    (!&s).raw(),
                     s
                 )
+            }
+            "eda.consts" => {
+                let (z, o) = (Signal::zero(), Signal::one());
+                let (f0, f1): (Signal, Signal) = (false.into(), true.into());
+                if f0 != z || f1 != o || !z != o || !&o != z || !z.is_const() || !o.is_const() || z.is_negated() || !o.is_negated() {
+                    self.fail(&["C20"], "the constant signals are not 0 / 1 or not each other's complement".into());
+                }
+                format!("zero={} one={} f0={} f1={} zc={} oc={} nz={} dz={} do={}", z.raw(), o.raw(), f0.raw(), f1.raw(), z.is_const() as u8, o.is_const() as u8, (!z).raw(), z, o)
             }
             "eda.fromvar" => {
                 let v: u32 = toks[1].parse().unwrap();
